@@ -175,6 +175,10 @@ CATALOGUE = [
     ("vorg-default-of-first-master", "varLib/__init__.py", "                metrics[glyph] if glyph in metrics else defaultVOrig", "                metrics[glyph] if glyph in metrics else vOrigMetricses[0][1]", "C10", "GetAdvanceMetrics", "alarm"),
     ("t2pen-current-point-not-advanced", "pens/t2CharStringPen.py", "        pt = self._p0 = (self.round(pt[0]), self.round(pt[1]))", "        pt = (self.round(pt[0]), self.round(pt[1]))", "C14", "T2CharStringPenRoundTrip", "alarm"),
     ("t2pen-delta-rounded-again", "pens/t2CharStringPen.py", "        return [pt[0] - p0[0], pt[1] - p0[1]]", "        return [self.round(pt[0] - p0[0]), pt[1] - p0[1]]", "C14", "T2CharStringPenRoundTrip", "green"),
+    ("varstore-scalars-not-refreshed", "varLib/varStore.py", "    def _clearCaches(self):\n        self._scalars = {}", "    def _clearCaches(self):\n        self._scalars = getattr(self, '_scalars', {})", "C09", "VarStoreInstancerValue", "alarm"),
+    ("varstore-subset-old-major", "varLib/varStore.py", "                varDataMap[(major << 16) + minor] = (newMajor << 16) + newMinor", "                varDataMap[(major << 16) + minor] = (major << 16) + newMinor", "C09", "VarStoreSubsetVarIdxes", "alarm"),
+    ("varstore-regions-reversed", "varLib/varStore.py", "    for i in sorted(usedRegions):", "    for i in sorted(usedRegions, reverse=True):", "C09", "VarStoreSubsetVarIdxes", "green"),
+    ("numshorts-one-column-short", "varLib/builder.py", "            max((i for i, b in enumerate(byte_lengths) if b > 1), default=-1) + 1", "            max((i for i, b in enumerate(byte_lengths) if b > 1), default=-1)", "C09", "CalculateNumShorts", "alarm"),
     ("closure-memo-subset-spelling", "subset/__init__.py", "    if cur_glyphs.issubset(covered):\n        return\n    covered.update(cur_glyphs)\n\n    for st in self.SubTable:", "    if cur_glyphs <= covered:\n        return\n    covered.update(cur_glyphs)\n\n    for st in self.SubTable:", "C07", "LookupClosureMemo", "green"),
 ]
 
